@@ -149,11 +149,11 @@ func readCableLabsEbp(data []byte) (ebp *cableLabsEbp, err error) {
 		index += uint8(1)
 	}
 
-	if index < ebp.DataFieldLength+2 {
-		if int(ebp.DataFieldLength+2) > len(data) {
+	if end := int(ebp.DataFieldLength) + 2; int(index) < end {
+		if end > len(data) {
 			return nil, gots.ErrInvalidEBPLength
 		}
-		ebp.ReservedBytes = data[index : ebp.DataFieldLength+2]
+		ebp.ReservedBytes = data[index:end]
 	}
 
 	// update the successful read time
